@@ -8,6 +8,7 @@ CONSTANTS
   KindSet = {"exact", "corrupt", "absent", "abort0"}
   ROs = {FALSE, TRUE}
   ExtNames = {"a", "b"}
+  MaxFiles = {1, 2, 1000000}
   WhatIf = "none"
 SPECIFICATION Spec
 INVARIANT NoViolation
